@@ -258,6 +258,11 @@ def program_states(depth):
 
 
 def cases(tier, seed):
+    from .. import produced
+    return _cases(tier, seed) + produced.case_list()
+
+
+def _cases(tier, seed):
     out = []
     n0 = len(space.U0())
     for i in range(n0):
@@ -309,6 +314,9 @@ def cached_impl(node, key):
 
 
 def run_case(case, R, extra_check=None):
+    if case.get("k") == "produced":
+        from .. import produced
+        return produced.run(R, ID, case["i0"], case["i1"])
     REPLAY_OPTS.clear()
     try:
         return _run_case(case, R, extra_check)
